@@ -8,6 +8,7 @@ COQ_PROP = "C09"
 FAMILIES = [(fam_sync, 150, 1500)]
 TECHNIQUE = "Coq proof of the sync control logic from named laws (FIX/REPLACE/FIND) over an FS state machine + replay correspondence of recorded layer answers + scenario oracle on the real sync"
 TRUSTED = P.TRUSTED
+WITNESS_REPLAY = False   # a scenario can fail for several reasons; findings are reported when observed in the run
 
 
 def oracle(rng, tier):
